@@ -202,9 +202,10 @@ def run(ctx):
     # ---- ordered guard ----
     ops = E.content_ops(sr)
     clr = [o['pos'] for o in ops if o['op'] == 'clear']
-    psh = [o for o in ops if o['op'] == 'push' and o['item'] == 'Element']
+    # the refill: content.push(Element(..)) in a loop, or content.extend(vec.into_iter().map(|..| Element(..)))
+    psh = [o for o in ops if o['op'] in ('push', 'extend') and o['item'] == 'Element']
     if len(clr) != 1 or len(psh) != 1:
-        C.anchor_missing('C14-MUST-ordered', 'ElementRaw::sort clear/push (found %d/%d)' % (len(clr), len(psh)))
+        C.anchor_missing('C14-MUST-ordered', 'ElementRaw::sort clear/refill (found %d/%d)' % (len(clr), len(psh)))
         return C.finish('fail closed')
     io = calls(sr, r'ElementType::is_ordered$')
     ok = len(io) == 1 and sr.pos_dominates(io[0], clr[0])
@@ -227,24 +228,44 @@ def run(ctx):
             d = dict(sw['ts'])
             # ContentMode: Sequence=0 Choice=1 Bag=2 Characters=3 Mixed=4
             bad_t = {d.get('3'), d.get('4')} - {None}
-            okm = bool(bad_t) and all(clr[0] not in sr.reach_from((x, 0), include_start=True) for x in bad_t)
+            # (flag-sensitive walk: `matches!(mode, Characters | Mixed)` first materialises a bool that is tested afterwards)
+            okm = bool(bad_t) and all(clr[0] not in sr.precise_walk((x, 0), include_start=True) for x in bad_t)
     C.check(okm, 'C14-MUST-ordered', 'clear-only-for-element-modes', 'sort can clear the content of a Characters / Mixed element', sr.where(clr[0]))
     # ---- refill ----
     rets = [pos for pos, t in sr.iter_terms() if t['k'] == 'return']
     ok = must_pass(sr, clr[0], rets, {psh[0]['pos']} | E.loops_containing(sr, [psh[0]['pos']]), include_start=False)
     C.check(ok, 'C14-FLOW-refill', 'refill-loop-after-clear', 'a path leads from content.clear() to the return without passing the refill loop (elements would be lost)', sr.where(clr[0]))
-    # refill loop iterates the vector `sorting_vec`
-    into = [(pos, t) for pos, t in sr.iter_calls() if call_matches(t, r'IntoIterator>::into_iter$') and sr.pos_dominates(pos, psh[0]['pos']) and sr.pos_dominates(clr[0], pos)]
-    ok = len(into) == 1 and strict_source_roots(sr, into[0][1]['args'][0]) == {('local', 'sorting_vec')}
-    C.check(ok, 'C14-FLOW-refill', 'refill-iterates-collected-vector', 'the refill loop does not iterate over exactly the vector that was collected before the clear', sr.where(psh[0]['pos']),
-            sample={'fn': 'ElementRaw::sort', 'refill_source': 'sorting_vec (moved into the loop)'})
-    # the pushed element comes from the refill loop's item
-    okp = psh[0]['inner'] is not None and 'elem' in source_names(sr, psh[0]['inner']) or (psh[0]['inner'] is not None and bool(source_names(sr, psh[0]['inner'])))
-    C.check(okp, 'C14-FLOW-refill', 'pushed-item-is-loop-item', 'the refill loop pushes something other than the collected handles')
-    # the collection: sorting_vec.push((indices, elem.clone())) inside a loop over &self.content that dominates the clear
-    vp = [(pos, t) for pos, t in sr.iter_calls() if call_matches(t, r'Vec::<T, A>::push$') and 'sorting_vec' in source_names(sr, t['args'][0])]
+    # the collection: <vec>.push((indices, elem.clone())) inside a loop over &self.content that dominates the clear; <vec> is identified by
+    # that push, not by its name
+    vp = []
+    for pos, t in sr.iter_calls():
+        if call_matches(t, r'Vec::<T, A>::push$') and E.loops_containing(sr, [pos]) and sr.pos_dominates(pos, clr[0]) is False and clr[0] in sr.reach_from(pos):
+            vp.append((pos, t))
+    vec_roots = strict_source_roots(sr, vp[0][1]['args'][0]) if len(vp) == 1 else set()
     ok = len(vp) == 1 and sr.pos_dominates(E.loops_containing(sr, [vp[0][0]]).pop() if E.loops_containing(sr, [vp[0][0]]) else (0, 0), clr[0]) and bool(E.loops_containing(sr, [vp[0][0]]))
     C.check(ok, 'C14-FLOW-refill', 'collect-loop-dominates-clear', 'the handles are not collected (in a loop) before the content list is cleared')
+    # the refill consumes exactly that vector
+    def iter_roots(o, depth=6):
+        """roots of an iterator value, looking through into_iter / iter / map / filter adaptors"""
+        r = strict_source_roots(sr, o)
+        out = set()
+        for kind, nm in r:
+            out.add((kind, nm))
+        for org in origins(sr, o):
+            if org[0] not in ('param', 'const', 'place') and org[1].get('k') == 'call' and call_matches(org[1], r'Iterator>?::(map|filter|filter_map|inspect|rev|cloned|copied)$|IntoIterator>::into_iter$') and depth > 0:
+                out = iter_roots(org[1]['args'][0], depth - 1)
+        return out
+    if psh[0]['op'] == 'push':
+        into = [(pos, t) for pos, t in sr.iter_calls() if call_matches(t, r'IntoIterator>::into_iter$') and sr.pos_dominates(pos, psh[0]['pos']) and sr.pos_dominates(clr[0], pos)]
+        ok = len(into) == 1 and bool(vec_roots) and strict_source_roots(sr, into[0][1]['args'][0]) == vec_roots
+        okp = psh[0]['inner'] is not None and bool(source_names(sr, psh[0]['inner']))
+    else:
+        ok = bool(vec_roots) and iter_roots(psh[0]['term']['args'][-1]) == vec_roots
+        okp = True
+    C.check(ok, 'C14-FLOW-refill', 'refill-iterates-collected-vector', 'the refill does not consume exactly the vector that was collected before the clear', sr.where(psh[0]['pos']),
+            sample={'fn': 'ElementRaw::sort', 'refill_source': 'the collected vector (moved into the refill)'})
+    # the pushed element comes from the refill loop's item
+    C.check(okp, 'C14-FLOW-refill', 'pushed-item-is-loop-item', 'the refill loop pushes something other than the collected handles')
     if vp:
         # the collection loop iterates self.content and pushes on the Element arm: from the Element-arm edge every path to the loop header passes the push
         cinto = [(pos, t) for pos, t in sr.iter_calls() if call_matches(t, r'IntoIterator>::into_iter$') and sr.pos_dominates(pos, vp[0][0])]
